@@ -51,7 +51,7 @@ def part_lexical(rep):
     invs = ("RefMakesDynamic", "PlainIsStatic", "TypeOnlyMattersForMinus", "RefOnlyRaises")
     cfg = corpus._cfg("Gen_Defaults.cfg", "SPECIFICATION DSpec\nCONSTANT MaxPieces = 3\n" + "".join(f"INVARIANT {i}\n" for i in invs) + "CONSTRAINT Emit\nCHECK_DEADLOCK FALSE\n")
     cases, r = tlc.generate("Gen_Defaults", cfg, tag="gendef", timeout=900)
-    rep.add_mc(r, "Gen_Defaults: every sequence of <= 3 of 28 lexical pieces x {hyphen type, other type}; RefMakesDynamic, PlainIsStatic, TypeOnlyMattersForMinus, RefOnlyRaises")
+    rep.add_mc(r, "Gen_Defaults: every sequence of <= 3 of 29 lexical pieces x {hyphen type, other type}; RefMakesDynamic, PlainIsStatic, TypeOnlyMattersForMinus, RefOnlyRaises")
     if rep.tier == "thorough":
         cfg4 = corpus._cfg("Gen_Defaults4.cfg", "SPECIFICATION DSpec\nCONSTANT MaxPieces = 5\nCONSTRAINT Emit\nCHECK_DEADLOCK FALSE\n")
         c4, _ = tlc.generate("Gen_Defaults", cfg4, tag="gendef4", simulate="num=60000", depth=8, seed=rep.seed + 3, timeout=1200)
